@@ -5,7 +5,12 @@ PRUDP client object inside an anyio task group (harness/rmc_client_sim.py); the 
 replayed through the compiled Lean model (`nxdrv_C10`), which must predict the call id of every request,
 every call's outcome, every "invalid call id" warning and the final white-box state
 (`call_id`, `closed`, keys of `requests`/`responses`, which calls still hang).
-Oracle on the real code = the property itself, evaluated on the log by `oracle()`.
+Oracle on the real code = the property itself, evaluated on the log by `oracle()`: by call id (the first response
+carrying the id of a call's request is the call's), and — for scenarios whose peer answers *request messages*
+(`["ans", task, ...]`, one-way requests included) — by addressee (`oracle_addressed`: a call completes with the answer
+the peer gave to its own request, never with the answer to another request).
+Clients started with protocol servers (`RMCClient.start(servers)`): the logout hooks' entries, returns and raises are
+log lines / marks that the extended model (NxModel/Nex/RmcClientX.lean) must predict, as well as how cleanup() ended.
 """
 import itertools, struct, multiprocessing, os
 import rmc_client_sim as R
@@ -16,29 +21,39 @@ M32 = 0xFFFFFFFF
 
 # ---------------------------------------------------------------- scenario construction
 def mk(n, perm, kinds, close_pos, close_kind, ypol, rng, start_id=1, extras=None, noresp=(), send_yields=None,
-       late=None, after_close_calls=0, first_yield=1, fam=""):
+       late=None, after_close_calls=0, first_yield=1, fam="", addressed=False, servers=None, spawn_close=0,
+       second_close=None):
     """n calls; responses delivered in the order `perm` (indices of calls); `extras[j]` = extra steps
-    inserted before the j-th response (j = n: after the last); close after `close_pos` responses."""
+    inserted before the j-th response (j = n: after the last); close after `close_pos` responses.
+    addressed: the peer answers *request messages* (["ans", task, ...]: the response echoes whatever call id the
+    request of that task carried, one-way requests included) instead of sending responses with ids computed here.
+    servers: logout hooks of the protocol servers the client is started with; second_close: another closure
+    (of any kind) right after the first one's yields."""
     steps = []
     late = late or {}
     order = [k for k in range(n) if k not in late]
     # ids in registration order: callers are started FIFO and each runs up to its send before the next
     ids = {}
+    tasknum = {}
     nxt = start_id
     def alloc(k):
         nonlocal nxt
         ids[k] = nxt
         nxt = (nxt + 1) & M32
+    def started(k):
+        tasknum[k] = len(tasknum)
     def y():
         c = ypol(rng)
         if c: steps.append(["yield", c])
     for k in order:
         steps.append(["start", 1 if k in noresp else 0, (send_yields or {}).get(k, 0)])
-        alloc(k)
+        alloc(k); started(k)
     if first_yield: steps.append(["yield", first_yield])
     serial = {}
     def resp(k, kind):
         s = serial.get(k, 0); serial[k] = s + 1
+        if addressed:
+            return ["ans", tasknum[k], "ok" if kind == "ok-empty" else kind, s]
         return ["resp", ids[k], kind, s]
     closed = False
     def do_close():
@@ -46,12 +61,15 @@ def mk(n, perm, kinds, close_pos, close_kind, ypol, rng, start_id=1, extras=None
         if close_kind and not closed:
             steps.append([close_kind]); closed = True
             y()
+            if second_close:
+                steps.append([second_close]); y()
     for j in range(n + 1):
         if j == close_pos: do_close()
         for k, pos in late.items():
             if pos == j:
                 steps.append(["start", 1 if k in noresp else 0, (send_yields or {}).get(k, 0)])
                 if not closed: alloc(k)
+                started(k)
                 steps.append(["yield", 1])
         for e in (extras or {}).get(j, []):
             if e[0] == "dup":         # another response for call e[1]
@@ -72,7 +90,11 @@ def mk(n, perm, kinds, close_pos, close_kind, ypol, rng, start_id=1, extras=None
                 y()
     for _ in range(after_close_calls):
         steps.append(["start", 0, 0]); steps.append(["yield", 1])
-    return {"start_id": start_id, "steps": steps, "fam": fam}
+    sc = {"start_id": start_id, "steps": steps, "fam": fam}
+    if addressed: sc["addressed"] = 1
+    if servers: sc["servers"] = servers
+    if spawn_close: sc["spawn_close"] = 1
+    return sc
 
 
 def y1(rng): return 1
@@ -85,6 +107,14 @@ CLOSE_KINDS = ["eof", "close", "disconnect", "cleanup"]
 
 def rkinds(rng, n):
     return [rng.choice(["ok", "ok", "err", "err", "ok-empty", "err-nobit"]) for _ in range(n)]
+
+
+def akinds(rng, n):
+    return [rng.choice(["ok", "ok", "err", "err", "err-nobit"]) for _ in range(n)]
+
+
+# what a protocol server's logout(client) hook may do (see rmc_client_sim.FakeServer)
+HOOKS = [["ret"], ["yret", 1], ["yret", 3], ["raise"], ["yraise", 2], ["idle"], ["forever"]]
 
 
 def gen_scenarios(ctx):
@@ -132,9 +162,11 @@ def gen_scenarios(ctx):
                              ("req", rng.choice([10, 0x7F, 0x123]), rng.randrange(1 << 32)), ("dup", rng.randrange(n), rng.choice(["ok", "err", "ok-empty", "err-nobit"]))])
             extras.setdefault(j, []).append(ex)
         ck = rng.choice([None] + CLOSE_KINDS)
+        adr = rng.random() < 0.5     # the peer answers request messages (echoing their ids) / sends ids computed here
         out.append(mk(n, perm, rkinds(rng, n), rng.randint(0, n) if ck else None, ck, yrand, rng, extras=extras, noresp=noresp,
                       late=late, send_yields=sy, after_close_calls=rng.choice([0, 0, 1, 2]) if ck else 0,
-                      first_yield=rng.choice([1, 1, 1, 2, 0]), fam="mixed"))
+                      first_yield=rng.choice([1, 1, 1, 2, 0]), addressed=adr, spawn_close=int(rng.random() < 0.25),
+                      fam="mixed:addressed" if adr else "mixed"))
     # F5: the call id counter wraps
     for start in (0xFFFFFFFE, 0xFFFFFFFF, 0, 0xFFFFFFFD):
         for n in range(1, 5):
@@ -148,6 +180,71 @@ def gen_scenarios(ctx):
         for raw in ("-", "00", "0500000001", "0a0000000a0107000000018000"):
             for ck in ("cleanup", "close"):
                 out.append(mk(n, list(range(n)), rkinds(rng, n), 1, ck, y1, rng, extras={1: [("raw", raw)]}, fam="malformed"))
+    out += gen_oneway(ctx)
+    out += gen_servers(ctx)
+    return out
+
+
+def gen_oneway(ctx):
+    """F7: one-way requests (noresponse=True) mixed with ordinary calls at every position of the request sequence; the
+    peer answers EVERY request message it received, one-way ones included (as the library's own server does for an
+    unregistered protocol), with success or error, in every order; plus one request issued late / a closure."""
+    rng, quick = ctx.rng, ctx.tier == "quick"
+    out = []
+    def family(n, mask, perm):
+        noresp = {k for k in range(n) if mask[k]}
+        for yp in ("y1", "batch"):
+            out.append(mk(n, perm, akinds(rng, n), None, None, YP[yp], rng, noresp=noresp, addressed=True, fam="oneway%d:%s" % (n, yp)))
+        # one request issued only after j answers have been sent; sometimes a closure; sometimes slow sends
+        k, j = rng.randrange(n), rng.randint(0, n)
+        ck = rng.choice([None, None] + CLOSE_KINDS)
+        sy = {q: rng.randint(1, 2) for q in range(n) if rng.random() < 0.2}
+        out.append(mk(n, perm, akinds(rng, n), rng.randint(0, n) if ck else None, ck, yrand, rng, noresp=noresp, late={k: j},
+                      send_yields=sy, addressed=True, fam="oneway%d:late" % n))
+    for n in range(1, 5 if quick else 6):
+        for mask in itertools.product((0, 1), repeat=n):
+            if any(mask):
+                for perm in itertools.permutations(range(n)):
+                    family(n, mask, perm)
+    for n, cnt in ((5, 250), (6, 150)) if quick else ((6, 20000),):
+        for _ in range(cnt):
+            mask = [int(rng.random() < 0.4) for _ in range(n)]
+            if not any(mask): mask[rng.randrange(n)] = 1
+            perm = list(range(n)); rng.shuffle(perm)
+            family(n, mask, perm)
+    # the counter wraps while one-way requests are mixed in
+    for start in (0xFFFFFFFE, 0xFFFFFFFF):
+        for mask in itertools.product((0, 1), repeat=3):
+            for perm in itertools.permutations(range(3)):
+                out.append(mk(3, perm, akinds(rng, 3), None, None, y1, rng, start_id=start, noresp={k for k in range(3) if mask[k]},
+                              addressed=True, fam="oneway:wrap"))
+    return out
+
+
+def gen_servers(ctx):
+    """F8: the client is started with protocol servers (RMCClient.start(servers)) whose logout hooks return at once, return
+    after a while, return only when no call is outstanding any more, never return, or raise; the connection is closed
+    in every way (peer EOF, close(), disconnect(), leaving `async with`) after every prefix of every response order,
+    each closure running in a task of its own, calls outstanding."""
+    rng, quick = ctx.rng, ctx.tier == "quick"
+    out = []
+    for n in range(1, 4 if quick else 5):
+        for perm in itertools.permutations(range(n)):
+            for pos in range(n + 1):
+                for ck in CLOSE_KINDS:
+                    confs = [[h] for h in HOOKS]
+                    if quick:
+                        confs += [[rng.choice(HOOKS) for _ in range(rng.choice([2, 2, 3]))] for _ in range(2)]
+                    else:
+                        confs += [[a, b] for a in HOOKS for b in HOOKS]
+                    for servers in confs:
+                        second = rng.choice([None, None, None] + CLOSE_KINDS)
+                        adr = rng.random() < 0.5
+                        out.append(mk(n, perm, akinds(rng, n) if adr else rkinds(rng, n), pos, ck, rng.choice([y1, y1, ybatch, yrand]), rng,
+                                      noresp={k for k in range(n) if rng.random() < 0.1},
+                                      send_yields={k: rng.randint(1, 3) for k in range(n) if rng.random() < 0.15},
+                                      after_close_calls=rng.choice([0, 0, 1]), addressed=adr, servers=servers, spawn_close=1,
+                                      second_close=second, fam="servers:%s:%s" % (ck, "+".join(h[0] for h in servers) if len(servers) == 1 else "multi")))
     return out
 
 
@@ -209,7 +306,11 @@ def oracle(sim):
                     first = r[1]; break
         if c["outcome"] is None:
             if closed_at is not None:
-                bad.append(("hang-after-close", "task %d (call id %d) still hangs although the connection closed at op %d" % (t, c["sent_id"], closed_at)))
+                how = "peer EOF" if log[closed_at] == "eof" else "/".join(sorted({r[0] for r in sim.final.get("closures", [])})) + "()"
+                srv = sim.sc.get("servers")
+                bad.append(("hang-after-close", "task %d (call id %d) still hangs although the connection closed at op %d (%s)%s" % (
+                    t, c["sent_id"], closed_at, how,
+                    "; client started with %d server(s) whose logout hooks are %r, cleanup() is %s" % (len(srv), srv, sim.final.get("cleanup_status")) if srv else "")))
             elif first is not None:
                 bad.append(("hang-answered", "task %d (call id %d) still hangs although its response arrived" % (t, c["sent_id"])))
         elif c["outcome"] == "closed":
@@ -222,16 +323,50 @@ def oracle(sim):
                 bad.append(("wrong-response", "task %d (call id %d) got %r, the first response carrying its id was %r" % (t, c["sent_id"], c["outcome"], first)))
             if closed_at is not None and closed_at < c["done_at"]:
                 bad.append(("returned-after-close", "task %d returned %r after the connection had closed" % (t, c["outcome"])))
+    if sim.sc.get("addressed"):
+        bad += oracle_addressed(sim, crash_at)
+    return bad
+
+
+def oracle_addressed(sim, crash_at):
+    """scenarios whose peer answers request messages (["ans", task, ...]): every datagram that answers a request is tagged
+    with the task that sent that request. A call must complete with the first answer the peer gave to ITS OWN request —
+    never with the answer to another request (another call's, or a one-way request's: that one is unsolicited for every caller)."""
+    log, bad = sim.oplog, []
+    addr = {int(k): v for k, v in sim.recv_addr.items()}
+    def outcome_at(i):
+        h = log[i][5:]
+        r = parse_resp(bytes.fromhex(h) if h != "-" else b"")
+        return r[1] if r else None
+    def describe(t):
+        c = sim.callers[t]
+        return "task %d's %srequest (call id %r)" % (t, "ONE-WAY " if c["noresp"] else "", c["sent_id"])
+    for c in sim.callers:
+        if c["sent_id"] is None or c["noresp"] or c["outcome"] in (None, "closed"): continue
+        t = c["task"]
+        own = next((i for i in range(c["call_at"] + 1, c["done_at"]) if addr.get(i) == t and (crash_at is None or i < crash_at)), None)
+        want = outcome_at(own) if own is not None else None
+        if c["outcome"] == want: continue
+        src = next((i for i in range(0, c["done_at"]) if i in addr and addr[i] != t and outcome_at(i) == c["outcome"]), None)
+        seq = ", ".join("%s(task %d, id %r)" % ("oneway" if q["noresp"] else "call", q["task"], q["sent_id"]) for q in sim.callers)
+        if src is not None:
+            bad.append(("not-own-response", "task %d (call id %d) completed with %r, which is the answer the peer gave to %s; the answer to its own "
+                        "request %s. Requests in order: %s" % (t, c["sent_id"], c["outcome"], describe(addr[src]),
+                                                              "was %r" % want if want else "had not arrived", seq)))
+        else:
+            bad.append(("not-own-response", "task %d (call id %d) completed with %r; the first answer the peer gave to its request %s. Requests in order: %s"
+                        % (t, c["sent_id"], c["outcome"], "was %r" % want if want else "had not arrived", seq)))
     return bad
 
 
 # ---------------------------------------------------------------- model replay
 def model_lines(sim):
-    lines = ["new %d" % sim.sc.get("start_id", 1)]
+    lines = ["new %d %d" % (sim.sc.get("start_id", 1), len(sim.sc.get("servers", [])))]
     for l in sim.oplog:
         if l == "loopcrash": continue
         lines.append(l)
     lines.append("dump")
+    lines.append("xdump")
     return lines
 
 
@@ -242,12 +377,21 @@ def compare(sim, outs):
     idx_map = [i for i, l in enumerate(sim.oplog) if l != "loopcrash"]
     callers = sim.callers
     flags = set()
-    for pos, (l, o) in enumerate(zip(log, outs[1:-1])):
+    hooks_real = {}
+    for idx, srv in sim.hook_entries:
+        hooks_real.setdefault(idx, []).append(srv)
+    for pos, (l, o) in enumerate(zip(log, outs[1:-2])):
         parts = o.split(" ")
         while parts and parts[-1] in ("SPECDIFF", "H-IDS-BROKEN"):
             flags.add(parts.pop())
         o = " ".join(parts)
         items = [] if o == "-" else o.split(";")
+        # logout hooks entered during this atomic section
+        model_hooks = [int(x.split(" ")[1]) for x in items if x.startswith("logout ")]
+        if model_hooks != hooks_real.get(idx_map[pos], []):
+            diffs.append(("logout-hooks", "%s: model enters hooks %r, real %r" % (l[:40], model_hooks, hooks_real.get(idx_map[pos], []))))
+        if l in ("hookret", "hookraise") and "nohook" in items:
+            diffs.append(("hook", "%s although no logout hook is executing in the model" % l))
         if l.startswith("call "):
             sent = [x for x in items if x.startswith("sent ")]
             done = [x for x in items if x.startswith("done ")]
@@ -277,7 +421,10 @@ def compare(sim, outs):
                 diffs.append(("outcome", "task %d: model %r real %r" % (t, want, callers[t]["outcome"])))
     # final state
     f = sim.final
-    d = outs[-1]
+    d = outs[-2]
+    xreal = "cleanup=" + f["cleanup_status"]
+    if not outs[-1].endswith(" " + xreal):
+        diffs.append(("cleanup-status", "model %r real %r (closures %r, loop %r)" % (outs[-1], xreal, f["closures"], f["loop"])))
     frames = d[d.index("frames=[") + 8:-1].split(" ") if not d.endswith("frames=[]") else []
     hung_model = sorted(int(x.split(":")[0]) for x in frames)
     ready_model = sorted(int(x.split(":")[0]) for x in frames if x.endswith(":1"))
@@ -296,7 +443,8 @@ def _work(chunk):
     sims = R.run_many(chunk)
     res = []
     for sim in sims:
-        res.append({"oplog": sim.oplog, "callers": sim.callers, "final": sim.final, "warn_after": sim.warn_after, "sc": sim.sc})
+        res.append({"oplog": sim.oplog, "callers": sim.callers, "final": sim.final, "warn_after": sim.warn_after, "sc": sim.sc,
+                    "recv_addr": sim.recv_addr, "hook_entries": sim.hook_entries})
     return res
 
 
@@ -322,6 +470,7 @@ def judge(ctx, sims, drv):
     outs = drv.batch(lines)
     n_diff = 0
     first_diff = None
+    worst = {}      # violation key -> (size of the scenario, what, replay): the smallest failing scenario is reported
     for sim, (a, b) in zip(sims, spans):
         o = outs[a:b]
         diffs, flags = compare(sim, o)
@@ -331,7 +480,7 @@ def judge(ctx, sims, drv):
         ctx.case(key=repr(sim.sc["steps"]) + str(sim.sc.get("start_id")), nontrivial=len(sim.callers) > 0,
                  tag="fam=" + fam.split(":")[0], sample={"scenario": sim.sc, "oplog": sim.oplog, "model": o} if ctx.evaluations % 3989 == 0 else None)
         for k in kinds: ctx.tag("outcome=" + k)
-        for x in o[1:-1]:
+        for x in o[1:-2]:
             for it in x.replace(" SPECDIFF", "").replace(" H-IDS-BROKEN", "").split(";"):
                 ctx.tag("model:" + it.split(" ")[0] + (":" + it.split(" ")[2] if it.startswith("done ") else ""))
         if "H-IDS-BROKEN" in flags: ctx.tag("h-ids-broken")
@@ -339,13 +488,17 @@ def judge(ctx, sims, drv):
             ctx.corr_break("C10_refines_spec-at-runtime", "the compiled model and the compiled specification disagree although live ids are distinct",
                            {"scenario": sim.sc, "oplog": sim.oplog, "model": o})
         for key, why in bad:
-            ctx.violation("c10:" + key, "RMCClient: " + why,
-                          {"scenario": sim.sc, "oplog": sim.oplog, "callers": [{k: (v.hex() if isinstance(v, bytes) else v) for k, v in c.items()} for c in sim.callers],
-                           "final": sim.final, "model": o, "model_diffs": diffs,
-                           "how": "harness/corr_C10.py replay(): rmc_client_sim.run_many([scenario]) then oracle()"})
+            size = (len(sim.callers), len(sim.sc["steps"]))
+            if key not in worst or size < worst[key][0]:
+                worst[key] = (size, "RMCClient: " + why,
+                              {"scenario": sim.sc, "oplog": sim.oplog, "callers": [{k: (v.hex() if isinstance(v, bytes) else v) for k, v in c.items()} for c in sim.callers],
+                               "final": sim.final, "model": o, "model_diffs": diffs,
+                               "how": "harness/corr_C10.py replay(): rmc_client_sim.run_many([scenario]) then oracle()"})
         if diffs:
             n_diff += 1
             if first_diff is None: first_diff = (sim, o, diffs)
+    for key in sorted(worst):
+        ctx.violation("c10:" + key, worst[key][1], worst[key][2])
     return n_diff, first_diff, len(lines)
 
 
@@ -353,8 +506,12 @@ def run(ctx):
     ctx.rule = ("scenarios = scripted peers/closers around the real RMCClient: 1..6 concurrent request() tasks, every permutation of the "
                 "response order for 1..5 calls (6: sampled in quick, all 720 in thorough) x closure after every prefix x eof/close/disconnect/__aexit__, "
                 "duplicate / unknown-id / stray-request datagrams at every position of every permutation of 1..4 calls, random mixes with late calls, "
-                "noresponse calls, slow sends, calls after closure, call-id wrap-around; three scheduling policies. Each run's op log is replayed through the "
-                "Lean model; a case counts as distinct non-trivial per distinct scenario with at least one call")
+                "noresponse calls, slow sends, calls after closure, call-id wrap-around; three scheduling policies; one-way requests at every position of "
+                "1..4 requests (5: thorough; 5-6 sampled) with a peer answering every request message, one-way included, in every order (success/error), "
+                "plus a late request / closure / wrap; clients started with 1..3 protocol servers whose logout hooks return, return late, wait until no "
+                "call is outstanding, never return or raise x closure of every kind (each in its own task) after every prefix of every response order "
+                "of 1..3 calls (4: thorough). Each run's op log is replayed through the Lean model; a case counts as distinct non-trivial per distinct "
+                "scenario with at least one call")
     ctx.assumptions.append("anyio/asyncio wake a task whose Event was set and run the code between two awaits atomically (trusted runtime); "
                            "RMCClient.client.send does not raise while RMCClient.closed is false (send failures are not modelled)")
     scs = gen_scenarios(ctx)
